@@ -191,10 +191,32 @@ class _EvalHook:
     def _subset_child(self, test: ast.AST) -> Optional[str]:
         if isinstance(test, ast.Compare) and len(test.ops) == 1 and isinstance(test.ops[0], ast.LtE):
             left, right = test.left, test.comparators[0]
+            left, right = self._set_source(left), self._set_source(right)
+            if left is None or right is None:
+                return None  # `<=` on something else than two sets (sizes, sequences) is not the inclusion test
             chs = {self.child(s.slice) for s in ast.walk(right) if isinstance(s, ast.Subscript)} - {None}
             left_chs = {self.child(s.slice) for s in ast.walk(left) if isinstance(s, ast.Subscript)} - {None}
             if len(chs) == 1 and not left_chs:
                 return next(iter(chs))
+        return None
+
+    def _set_source(self, expr: ast.AST, depth: int = 0) -> Optional[ast.AST]:
+        """the set-building expression behind `expr` (through locals), or None when it is not visibly a set"""
+        if depth > 3:
+            return None
+        if isinstance(expr, ast.Name):
+            val = reaching(self.fn, expr.id, self.at)
+            if val is None or isinstance(val, Opaque):
+                return None
+            return self._set_source(val, depth + 1)
+        if isinstance(expr, ast.Call) and dotted(expr.func) in ("set", "frozenset") and len(expr.args) == 1:
+            return expr
+        if isinstance(expr, (ast.Set, ast.SetComp)):
+            return expr
+        if isinstance(expr, ast.BinOp) and isinstance(expr.op, (ast.BitAnd, ast.BitOr, ast.Sub)):
+            a, b = self._set_source(expr.left, depth + 1), self._set_source(expr.right, depth + 1)
+            if a is not None and b is not None:
+                return expr
         return None
 
 
